@@ -331,6 +331,105 @@ impl Model for ReaderModel {
     }
 }
 
+/// The reference cursors alone (no library object): what `actions()` needs to enumerate histories.
+fn shadow_reader_ops(live: &[(usize, usize)], out: &mut Vec<ROp>) {
+    for (i, (start, end)) in live.iter().enumerate() {
+        let i = i as u8;
+        let avail = end - start;
+        if avail >= 1 {
+            out.push(ROp::U8(i));
+        }
+        if avail >= 2 {
+            out.push(ROp::U16(i));
+        }
+        if avail >= 4 {
+            out.push(ROp::U32(i));
+        }
+        if avail >= 8 {
+            out.push(ROp::U64(i));
+        }
+        for k in 0..=(avail + 2) as u8 {
+            out.push(ROp::Bytes(i, k));
+        }
+        for k in [250u8, 251, 252] {
+            out.push(ROp::Bytes(i, k));
+        }
+        for k in 0..=avail as u8 {
+            out.push(ROp::Skip(i, k));
+            if live.len() < 3 {
+                out.push(ROp::Sub(i, k));
+            }
+        }
+    }
+}
+
+fn shadow_reader_apply(live: &mut Vec<(usize, usize)>, op: ROp) {
+    match op {
+        ROp::U8(i) => live[i as usize].0 += 1,
+        ROp::U16(i) => live[i as usize].0 += 2,
+        ROp::U32(i) => live[i as usize].0 += 4,
+        ROp::U64(i) => live[i as usize].0 += 8,
+        ROp::Bytes(i, k) => {
+            let l = &mut live[i as usize];
+            if k < 250 && (k as usize) <= l.1 - l.0 {
+                l.0 += k as usize;
+            }
+        }
+        ROp::Skip(i, k) => live[i as usize].0 += k as usize,
+        ROp::Sub(i, k) => {
+            let l = &mut live[i as usize];
+            let sub = (l.0, l.0 + k as usize);
+            l.0 += k as usize;
+            live.push(sub);
+        }
+    }
+}
+
+fn reader_sig(ops: &[ROp], what: &str) -> String {
+    let opname = ops.last().map(|a| format!("{a:?}").split('(').next().unwrap_or("").to_string()).unwrap_or_default();
+    format!("C18 reader {opname} {}", if what.contains("panicked") { "panics" } else { "differs" })
+}
+
+/// Pre-pass: every reader history up to `depth` as an attributed case of the ENUM engine, so that
+/// a fatal signal inside the library is tied to the history that caused it.
+fn live_reader_histories(ctx: &mut Ctx, depth: usize) {
+    fn rec(ctx: &mut Ctx, base: u8, ops: &mut Vec<ROp>, live: &[(usize, usize)], left: usize, count: &mut u64) {
+        let mut alphabet = Vec::new();
+        shadow_reader_ops(live, &mut alphabet);
+        for op in alphabet {
+            ops.push(op);
+            let o2 = ops.clone();
+            let desc = move || json!({"kind":"reader-history","base":base,"ops":o2.iter().map(|a| format!("{a:?}")).collect::<Vec<_>>()});
+            *count += 1;
+            ctx.case(&desc, |ctx| {
+                let mut s = ReaderModel { max_depth: 99 }.init_states().into_iter().find(|s| s.base == base).unwrap();
+                for (d, o) in ops.iter().enumerate() {
+                    s = apply_reader(&s, *o);
+                    if let Some(what) = &s.bad {
+                        if d + 1 == ops.len() {
+                            ctx.violation(reader_sig(ops, what), format!("base slice of {base} octets, operations {ops:?}: {what}"), ops.len(), &desc);
+                        }
+                        return;
+                    }
+                }
+            });
+            if left > 1 {
+                let mut l2 = live.to_vec();
+                shadow_reader_apply(&mut l2, op);
+                rec(ctx, base, ops, &l2, left - 1, count);
+            }
+            ops.pop();
+        }
+    }
+    let mut count = 0u64;
+    for base in 0..=6u8 {
+        rec(ctx, base, &mut Vec::new(), &[(0, base as usize)], depth, &mut count);
+    }
+    ctx.states += count;
+    ctx.transitions += count;
+    ctx.extra.insert(format!("live_reader_histories_to_depth_{depth}"), json!(count));
+}
+
 // ---------------------------------------------------------------------------------------------
 // C18 writer
 
@@ -361,31 +460,29 @@ fn wval(depth: u8, i: usize) -> u8 {
     0xa0u8.wrapping_add(depth.wrapping_mul(0x10)).wrapping_add(i as u8)
 }
 
-fn apply_writer(s: &WState, op: WOp) -> WState {
-    let mut n = s.clone();
-    n.depth += 1;
-    let d = s.depth;
-    let mut real = VecWriter { data: s.real.clone() };
+/// One writer operation on a live `VecWriter` and on the reference vector; `Some(..)` describes a
+/// departure from the reference.
+fn writer_step(real: &mut VecWriter, model: &mut Vec<u8>, d: u8, op: WOp) -> Option<String> {
     let vals: Vec<u8> = (0..8).map(|i| wval(d, i)).collect();
     let res = match op {
         WOp::U8 => {
-            n.model.push(vals[0]);
+            model.push(vals[0]);
             guarded(|| real.write_u8(vals[0]))
         }
         WOp::U16 => {
-            n.model.extend_from_slice(&vals[..2]);
+            model.extend_from_slice(&vals[..2]);
             guarded(|| real.write_u16_be(be(&vals[..2]) as u16))
         }
         WOp::U32 => {
-            n.model.extend_from_slice(&vals[..4]);
+            model.extend_from_slice(&vals[..4]);
             guarded(|| real.write_u32_be(be(&vals[..4]) as u32))
         }
         WOp::U64 => {
-            n.model.extend_from_slice(&vals[..8]);
+            model.extend_from_slice(&vals[..8]);
             guarded(|| real.write_u64_be(be(&vals[..8])))
         }
         WOp::Bytes(k) => {
-            n.model.extend_from_slice(&vals[..k as usize]);
+            model.extend_from_slice(&vals[..k as usize]);
             guarded(|| real.write_bytes(&vals[..k as usize]))
         }
         WOp::At(k, off) => {
@@ -396,32 +493,108 @@ fn apply_writer(s: &WState, op: WOp) -> WState {
                 x => x as usize,
             };
             let patch: Vec<u8> = (0..k).map(|i| 0x0f ^ wval(d, i)).collect();
-            let inside = off.checked_add(k).map_or(false, |e| e <= n.model.len());
+            let inside = off.checked_add(k).map_or(false, |e| e <= model.len());
             let r = guarded(|| real.write_bytes_at(&patch, off));
             if inside {
-                n.model[off..off + k].copy_from_slice(&patch);
+                model[off..off + k].copy_from_slice(&patch);
                 r
             } else {
                 // must be refused (panic) and leave the buffer unchanged
                 match r {
-                    Ok(()) => Err(("-".into(), format!("write_bytes_at({k} octets, offset {off}) on {} written octets was not refused", n.model.len()))),
+                    Ok(()) => Err(("-".into(), format!("write_bytes_at({k} octets, offset {off}) on {} written octets was not refused", model.len()))),
                     Err(_) => Ok(()),
                 }
             }
         }
     };
     if let Err(p) = res {
-        n.bad = Some(format!("{op:?}: {} {}", p.0, p.1));
+        return Some(format!("{op:?}: {} {}", p.0, p.1));
     }
+    if real.data != *model {
+        return Some(format!("after {op:?}: writer holds {}, reference vector holds {}", hex(&real.data), hex(model)));
+    }
+    if real.len() != model.len() || real.is_empty() != model.is_empty() {
+        return Some(format!("after {op:?}: len() = {}, is_empty() = {}, reference vector has {} octets", real.len(), real.is_empty(), model.len()));
+    }
+    None
+}
+
+fn apply_writer(s: &WState, op: WOp) -> WState {
+    let mut n = s.clone();
+    n.depth += 1;
+    let mut real = VecWriter { data: s.real.clone() };
+    n.bad = writer_step(&mut real, &mut n.model, s.depth, op);
     n.real = real.data.clone();
-    if n.bad.is_none() {
-        if n.real != n.model {
-            n.bad = Some(format!("after {op:?}: writer holds {}, reference vector holds {}", hex(&n.real), hex(&n.model)));
-        } else if real.len() != n.model.len() || real.is_empty() != n.model.is_empty() {
-            n.bad = Some(format!("after {op:?}: len() = {}, is_empty() = {}, reference vector has {} octets", real.len(), real.is_empty(), n.model.len()));
+    n
+}
+
+/// The operations the writer model enables on a reference vector of `len` octets.
+fn writer_ops(len: usize, out: &mut Vec<WOp>) {
+    out.extend([WOp::U8, WOp::U16, WOp::U32, WOp::U64, WOp::Bytes(0), WOp::Bytes(1), WOp::Bytes(2)]);
+    let len = len.min(200) as u8;
+    for k in 0..=2u8 {
+        for off in 0..=len + 1 {
+            out.push(WOp::At(k, off));
+        }
+        out.push(WOp::At(k, 250));
+        out.push(WOp::At(k, 251));
+    }
+}
+
+fn wop_growth(op: WOp) -> usize {
+    match op {
+        WOp::U8 => 1,
+        WOp::U16 => 2,
+        WOp::U32 => 4,
+        WOp::U64 => 8,
+        WOp::Bytes(k) => k as usize,
+        WOp::At(..) => 0,
+    }
+}
+
+fn writer_sig(ops: &[WOp], what: &str) -> String {
+    let opname = ops.last().map(|a| format!("{a:?}").split('(').next().unwrap_or("").to_string()).unwrap_or_default();
+    format!("C18 writer {opname} {}", if what.contains("not refused") { "not-refused" } else { "differs" })
+}
+
+/// One history on ONE live `VecWriter` (its capacity carries over from operation to operation,
+/// unlike in the state-graph search, where every state is rebuilt from its octets).
+fn live_writer_history(ctx: &mut Ctx, ops: &[WOp], case: &dyn Fn() -> Value) {
+    let mut real = VecWriter::new();
+    let mut model: Vec<u8> = Vec::new();
+    for (d, op) in ops.iter().enumerate() {
+        if let Some(what) = writer_step(&mut real, &mut model, d as u8, *op) {
+            if d + 1 == ops.len() {
+                ctx.violation(writer_sig(ops, &what), format!("one live writer, operations {ops:?}: {what}"), ops.len(), case);
+            }
+            return;
         }
     }
-    n
+}
+
+/// Pre-pass: every writer history up to `depth` as an attributed case of the ENUM engine (a fatal
+/// signal inside the library is then tied to the history that caused it), on one live writer.
+fn live_writer_histories(ctx: &mut Ctx, depth: usize) {
+    fn rec(ctx: &mut Ctx, ops: &mut Vec<WOp>, len: usize, left: usize, count: &mut u64) {
+        let mut alphabet = Vec::new();
+        writer_ops(len, &mut alphabet);
+        for op in alphabet {
+            ops.push(op);
+            let o2 = ops.clone();
+            let desc = move || json!({"kind":"writer-history","live":true,"ops":o2.iter().map(|a| format!("{a:?}")).collect::<Vec<_>>()});
+            *count += 1;
+            ctx.case(&desc, |ctx| live_writer_history(ctx, ops, &desc));
+            if left > 1 {
+                rec(ctx, ops, len + wop_growth(op), left - 1, count);
+            }
+            ops.pop();
+        }
+    }
+    let mut count = 0u64;
+    rec(ctx, &mut Vec::new(), 0, depth, &mut count);
+    ctx.states += count;
+    ctx.transitions += count;
+    ctx.extra.insert(format!("live_writer_histories_to_depth_{depth}"), json!(count));
 }
 
 impl Model for WriterModel {
@@ -439,15 +612,7 @@ impl Model for WriterModel {
         if s.depth >= self.max_depth || s.bad.is_some() {
             return;
         }
-        out.extend([WOp::U8, WOp::U16, WOp::U32, WOp::U64, WOp::Bytes(0), WOp::Bytes(1), WOp::Bytes(2)]);
-        let len = s.model.len().min(200) as u8;
-        for k in 0..=2u8 {
-            for off in 0..=len + 1 {
-                out.push(WOp::At(k, off));
-            }
-            out.push(WOp::At(k, 250));
-            out.push(WOp::At(k, 251));
-        }
+        writer_ops(s.model.len(), out);
     }
     fn next_state(&self, s: &WState, a: WOp) -> Option<WState> {
         TRANSITIONS.fetch_add(1, Ordering::Relaxed);
@@ -499,6 +664,21 @@ fn run_c18(ctx: &mut Ctx) {
     let t = ctx.tier;
     let rd = if t.thorough() { 7 } else { 6 };
     let wd_ = if t.thorough() { 6 } else { 5 };
+    // pre-passes of the ENUM engine: short histories as attributed cases (fatal signals), the
+    // writer ones on one live writer; then the boundary-size cases, also attributed
+    live_reader_histories(ctx, if t.thorough() { 3 } else { 2 });
+    live_writer_histories(ctx, if t.thorough() { 4 } else { 3 });
+    big_writer_cases(ctx);
+    big_reader_cases(ctx);
+    if ctx.only_case.is_some() || ctx.stop_after.is_some() {
+        return;
+    }
+    if ctx.start_after > 0 {
+        // resumed after a fatal case: the state-graph search runs inside this process and would
+        // only die the same way
+        ctx.capped = Some("state-graph search skipped: the worker was resumed after a fatal case in the pre-pass".into());
+        return;
+    }
     let n = run_model(
         ctx,
         "reader",
@@ -540,8 +720,6 @@ fn run_c18(ctx: &mut Ctx) {
     }
     // unique states beyond the initial ones, as deduplicated by stateright
     ctx.nontrivial_direct = ctx.states.saturating_sub(8);
-    big_writer_cases(ctx);
-    big_reader_cases(ctx);
     ctx.tally("histories");
     // samples: two histories of the explored space, re-walked here through the model's own
     // actions()/next_state() (every step must be an enabled action) with the state they reach
@@ -580,6 +758,9 @@ fn big_writer_cases(ctx: &mut Ctx) {
     let mut count = 0u64;
     for boundary in [256usize, 4096, 65_536, 131_072] {
         for fill in boundary - 9..=boundary + 9 {
+            let desc = move || json!({"kind":"big-writer","fill":fill,"step":"*"});
+            let count = &mut count;
+            ctx.case(&desc, move |ctx| {
             let case = |step: &str| json!({"kind":"big-writer","fill":fill,"step":step});
             let mut w = VecWriter::new();
             let mut model: Vec<u8> = Vec::new();
@@ -618,11 +799,11 @@ fn big_writer_cases(ctx: &mut Ctx) {
                     i += 1;
                 }
             });
-            count += 1;
+            *count += 1;
             if r.is_err() || w.data != model || w.len() != model.len() {
                 let at = w.data.iter().zip(model.iter()).position(|(x, y)| x != y).unwrap_or(w.data.len().min(model.len()));
                 ctx.violation("C18 writer big-fill".into(), format!("after appending {fill} octets with mixed operations the writer differs from the reference vector at octet {at} (lengths {} vs {})", w.data.len(), model.len()), fill, || case("fill"));
-                continue;
+                return;
             }
             // overwrites around every interesting position
             let len = model.len();
@@ -635,7 +816,7 @@ fn big_writer_cases(ctx: &mut Ctx) {
                     let inside = off + k <= len;
                     let before = w.data.clone();
                     let r = guarded(|| w.write_bytes_at(&patch, off));
-                    count += 1;
+                    *count += 1;
                     if inside {
                         model[off..off + k].copy_from_slice(&patch);
                         if r.is_err() || w.data != model {
@@ -655,10 +836,11 @@ fn big_writer_cases(ctx: &mut Ctx) {
                 w.write_u8(9);
             });
             model.extend_from_slice(&[0xde, 0xad, 0xbe, 0xef, 1, 2, 3, 9]);
-            count += 1;
+            *count += 1;
             if r.is_err() || w.data != model {
                 ctx.violation("C18 writer big-append-after-overwrite".into(), format!("appends after overwrites on a {len}-octet writer differ from the reference vector"), fill, || case("append"));
             }
+            });
         }
     }
     ctx.states += count;
@@ -676,7 +858,9 @@ fn big_reader_cases(ctx: &mut Ctx) {
     let mut count = 0u64;
     for pos in [0usize, 1, 250, 254, 255, 256, 257, 4095, 4096, 65_530, 65_534, 65_535, 65_536, 65_537, 69_990] {
         for op in 0..8usize {
-            let case = || json!({"kind":"big-reader","pos":pos,"op":op});
+            let case = move || json!({"kind":"big-reader","pos":pos,"op":op});
+            count += 1;
+            ctx.case(&case, |ctx| {
             let r = guarded(|| {
                 let mut rd = SliceReader::from(base);
                 rd.skip_bytes(pos);
@@ -775,12 +959,12 @@ fn big_reader_cases(ctx: &mut Ctx) {
                 }
                 problems
             });
-            count += 1;
             match r {
                 Ok(p) if p.is_empty() => (),
                 Ok(p) => ctx.violation(format!("C18 reader big op{op}"), format!("70000-octet slice, position {pos}: {}", p.join("; ")), pos, case),
                 Err(p) => ctx.violation(format!("C18 reader big op{op} panics"), format!("position {pos}: panic at {}: {}", p.0, p.1), pos, case),
             }
+            });
         }
     }
     ctx.states += count;
@@ -841,6 +1025,14 @@ fn replay_c18(ctx: &mut Ctx, v: &Value) {
                     return;
                 }
             }
+        }
+        Some("writer-history") if v["live"].as_bool() == Some(true) => {
+            let parsed: Vec<WOp> = ops.iter().filter_map(|o| parse_wop(o)).collect();
+            if parsed.len() != ops.len() {
+                eprintln!("machinery: bad op in {ops:?}");
+                std::process::exit(2);
+            }
+            live_writer_history(ctx, &parsed, &|| v.clone());
         }
         Some("writer-history") => {
             let mut s = WriterModel { max_depth: 99 }.init_states().remove(0);
@@ -1045,8 +1237,102 @@ fn alone_encodings() -> Result<Vec<Vec<u8>>, String> {
     Ok(v)
 }
 
+fn enc_class(what: &str) -> &'static str {
+    if what.contains("positional overwrite") {
+        "overwrite-outside-value"
+    } else if what.contains("inside the earlier content") {
+        "earlier-content-changed"
+    } else if what.contains("panicked") {
+        "panics"
+    } else {
+        "appended-octets-differ"
+    }
+}
+
+/// One encode history into ONE live `VecWriter` that first received `prefix` octets through
+/// `write_bytes` (its capacity is whatever the library made it, and carries over).
+fn live_enc_history(ctx: &mut Ctx, prefix: usize, items: &[u8], case: &dyn Fn() -> Value) {
+    let menu = enc_menu();
+    let alone = match alone_encodings() {
+        Ok(a) => a,
+        Err(e) => {
+            ctx.violation("C09 encode-into-empty-panics".into(), e, 0, case);
+            return;
+        }
+    };
+    let mut w = VecWriter::new();
+    let mut model = vec![0xaau8; prefix];
+    if guarded(|| w.write_bytes(&model)).is_err() || w.data != model {
+        // the writer itself is C18's business
+        return;
+    }
+    for (d, i) in items.iter().enumerate() {
+        let (name, item) = &menu[*i as usize];
+        let before = model.len();
+        let what = match guarded(|| encode_item(item, &mut w)) {
+            Err(p) => Some(format!("encoding {name} into a live writer holding {before} octets panicked at {}: {}", p.0, p.1)),
+            Ok(()) => {
+                model.extend_from_slice(&alone[*i as usize]);
+                if w.data != model {
+                    let at = w.data.iter().zip(model.iter()).position(|(x, y)| x != y).unwrap_or(w.data.len().min(model.len()));
+                    Some(format!(
+                        "encoding {name} into a live writer holding {before} octets: result differs from old content ++ encoding-into-empty at octet {at} ({}); lengths {} vs {}",
+                        if at < before { "inside the earlier content" } else { "inside the new value" },
+                        w.data.len(),
+                        model.len()
+                    ))
+                } else if w.len() != model.len() {
+                    Some(format!("encoding {name}: writer reports len() {} for {} octets", w.len(), model.len()))
+                } else {
+                    None
+                }
+            }
+        };
+        if let Some(what) = what {
+            if d + 1 == items.len() {
+                ctx.violation(
+                    format!("C09 {} {}", enc_class(&what), name.split('-').next().unwrap_or("")),
+                    format!("prefix of {prefix} octets, then {:?} on one live writer: {what}", items.iter().map(|a| menu[*a as usize].0).collect::<Vec<_>>()),
+                    items.len(),
+                    case,
+                );
+            }
+            return;
+        }
+    }
+}
+
+/// Pre-pass: every encode history up to `depth` as an attributed case of the ENUM engine.
+fn live_enc_histories(ctx: &mut Ctx, depth: usize) {
+    let n = enc_menu().len() as u8;
+    let mut count = 0u64;
+    for prefix in [0usize, 1, 7, 300] {
+        let mut frontier: Vec<Vec<u8>> = vec![vec![]];
+        for _ in 0..depth {
+            let mut next = Vec::new();
+            for path in &frontier {
+                for a in 0..n {
+                    let mut items = path.clone();
+                    items.push(a);
+                    let i2 = items.clone();
+                    let desc = move || json!({"kind":"enc-history","live":true,"prefix":prefix,"items":i2});
+                    count += 1;
+                    ctx.case(&desc, |ctx| live_enc_history(ctx, prefix, &items, &desc));
+                    next.push(items);
+                }
+            }
+            frontier = next;
+        }
+    }
+    ctx.states += count;
+    ctx.transitions += count;
+    ctx.extra.insert(format!("live_encode_histories_to_depth_{depth}"), json!(count));
+}
+
 fn run_c09(ctx: &mut Ctx) {
     let depth = if ctx.tier.thorough() { 4 } else { 3 };
+    // pre-pass of the ENUM engine: short histories on one live writer as attributed cases
+    live_enc_histories(ctx, if ctx.tier.thorough() { 3 } else { 2 });
     let alone = match alone_encodings() {
         Ok(a) => a,
         Err(e) => {
@@ -1054,6 +1340,17 @@ fn run_c09(ctx: &mut Ctx) {
             return;
         }
     };
+    // far positions: the same menu encoded at writer positions that cannot be reached by
+    // allocating (2^16, 2^24, 2^31, 2^32 ... on a Writer that only pretends to hold the earlier
+    // octets), sequences of up to two values, plus real VecWriters holding 64 KiB +- a few octets
+    far_positions(ctx, &alone);
+    if ctx.only_case.is_some() || ctx.stop_after.is_some() {
+        return;
+    }
+    if ctx.start_after > 0 {
+        ctx.capped = Some("state-graph search skipped: the worker was resumed after a fatal case in the pre-pass".into());
+        return;
+    }
     let a2 = alone.clone();
     let n = run_model(
         ctx,
@@ -1082,10 +1379,6 @@ fn run_c09(ctx: &mut Ctx) {
             )
         },
     );
-    // far positions: the same menu encoded at writer positions that cannot be reached by
-    // allocating (2^16, 2^24, 2^31, 2^32 ... on a Writer that only pretends to hold the earlier
-    // octets), sequences of up to two values, plus real VecWriters holding 64 KiB +- a few octets
-    far_positions(ctx, &alone);
     if n > 4 {
         ctx.guard("nonempty-prefix");
         ctx.guard("prefix-over-64-octets");
@@ -1166,56 +1459,74 @@ fn check_far(ctx: &mut Ctx, alone: &[Vec<u8>], base: usize, items: &[u8], real: 
     }
 }
 
+fn far_case(ctx: &mut Ctx, alone: &[Vec<u8>], base: usize, items: &[u8], real: bool) {
+    let i2 = items.to_vec();
+    let desc = move || json!({"kind":"far-position","base":base,"items":i2,"real":real});
+    ctx.case(&desc, |ctx| check_far(ctx, alone, base, items, real));
+}
+
+/// One AVP value of the list menu encoded after `base` earlier octets (a real `VecWriter`, or a
+/// writer that only pretends to hold them).
+fn far_avp_case(ctx: &mut Ctx, k: usize, a: &SAvp, base: usize, real: bool) {
+    let case = || json!({"kind":"far-position-avp","menu_index":k,"base":base,"real":real});
+    let c = bridge::avp_to_crate(a).unwrap();
+    let mut alone_w = VecWriter::new();
+    if guarded(|| c.write(&mut alone_w)).is_err() {
+        return;
+    }
+    if real {
+        let mut w = VecWriter { data: vec![0x5a; base] };
+        let r = guarded(|| c.write(&mut w));
+        if r.is_err() || w.data[..base].iter().any(|b| *b != 0x5a) || w.data[base..] != alone_w.data[..] {
+            ctx.violation(format!("C09 avp-kind-at-prefix attr{}", a.attr()), format!("{a:?} encoded into a writer holding {base} octets: earlier content changed or appended octets differ from the encoding into an empty writer"), base, case);
+        }
+    } else {
+        let mut w = RecordingWriter::at_position(base);
+        let r = guarded(|| c.write(&mut w));
+        let bad_overwrite = w.out_of_range.first().or_else(|| w.overwrites.iter().find(|o| o.offset < base)).cloned();
+        if r.is_err() || bad_overwrite.is_some() || w.data != alone_w.data {
+            ctx.violation(
+                format!("C09 avp-kind-at-far-position attr{}", a.attr()),
+                format!("{a:?} encoded at writer position {base}: {}", match bad_overwrite { Some(o) => format!("positional overwrite at {} outside the value", o.offset), None => "appended octets differ / panic".into() }),
+                k,
+                case,
+            );
+        }
+    }
+}
+
 fn far_positions(ctx: &mut Ctx, alone: &[Vec<u8>]) {
     let n = enc_menu().len() as u8;
     let mut count = 0u64;
     for base in FAR_BASES {
         for a in 0..n {
-            check_far(ctx, alone, base, &[a], false);
+            far_case(ctx, alone, base, &[a], false);
             count += 1;
             for b in 0..n {
-                check_far(ctx, alone, base, &[a, b], false);
+                far_case(ctx, alone, base, &[a, b], false);
                 count += 1;
             }
         }
     }
     for base in [65_530usize, 65_534, 65_535, 65_536, 65_537, 70_000, 131_071, 131_072] {
         for a in 0..n {
-            check_far(ctx, alone, base, &[a], true);
-            check_far(ctx, alone, base, &[a, (a + 3) % n], true);
+            far_case(ctx, alone, base, &[a], true);
+            far_case(ctx, alone, base, &[a, (a + 3) % n], true);
             count += 2;
         }
     }
     // every AVP value of the list menu (all 39 kinds, optional parts, hidden): one step at real
     // prefixes of 1, 7, 300 octets and at every far position
     for (k, a) in vgen::list_menu().iter().enumerate() {
-        let c = bridge::avp_to_crate(a).unwrap();
-        let mut alone_w = VecWriter::new();
-        if guarded(|| c.write(&mut alone_w)).is_err() {
-            continue;
-        }
-        let case = |base: usize, real: bool| json!({"kind":"far-position-avp","menu_index":k,"base":base,"real":real});
         for base in [1usize, 7, 300] {
-            let mut w = VecWriter { data: vec![0x5a; base] };
-            let r = guarded(|| c.write(&mut w));
+            let desc = move || json!({"kind":"far-position-avp","menu_index":k,"base":base,"real":true});
+            ctx.case(&desc, |ctx| far_avp_case(ctx, k, a, base, true));
             count += 1;
-            if r.is_err() || w.data[..base].iter().any(|b| *b != 0x5a) || w.data[base..] != alone_w.data[..] {
-                ctx.violation(format!("C09 avp-kind-at-prefix attr{}", a.attr()), format!("{a:?} encoded into a writer holding {base} octets: earlier content changed or appended octets differ from the encoding into an empty writer"), base, || case(base, true));
-            }
         }
         for base in FAR_BASES {
-            let mut w = RecordingWriter::at_position(base);
-            let r = guarded(|| c.write(&mut w));
+            let desc = move || json!({"kind":"far-position-avp","menu_index":k,"base":base,"real":false});
+            ctx.case(&desc, |ctx| far_avp_case(ctx, k, a, base, false));
             count += 1;
-            let bad_overwrite = w.out_of_range.first().or_else(|| w.overwrites.iter().find(|o| o.offset < base)).cloned();
-            if r.is_err() || bad_overwrite.is_some() || w.data != alone_w.data {
-                ctx.violation(
-                    format!("C09 avp-kind-at-far-position attr{}", a.attr()),
-                    format!("{a:?} encoded at writer position {base}: {}", match bad_overwrite { Some(o) => format!("positional overwrite at {} outside the value", o.offset), None => "appended octets differ / panic".into() }),
-                    k,
-                    || case(base, false),
-                );
-            }
         }
     }
     ctx.states += count;
@@ -1231,20 +1542,8 @@ fn replay_c09(ctx: &mut Ctx, v: &Value) {
         let k = v["menu_index"].as_u64().unwrap_or(0) as usize;
         let base = v["base"].as_u64().unwrap_or(0) as usize;
         let menu = vgen::list_menu();
-        let a = &menu[k % menu.len()];
-        let c = bridge::avp_to_crate(a).unwrap();
-        let mut alone_w = VecWriter::new();
-        c.write(&mut alone_w);
-        let ok = if v["real"].as_bool().unwrap_or(false) {
-            let mut w = VecWriter { data: vec![0x5a; base] };
-            guarded(|| c.write(&mut w)).is_ok() && w.data[..base].iter().all(|b| *b == 0x5a) && w.data[base..] == alone_w.data[..]
-        } else {
-            let mut w = RecordingWriter::at_position(base);
-            guarded(|| c.write(&mut w)).is_ok() && w.out_of_range.is_empty() && w.overwrites.iter().all(|o| o.offset >= base) && w.data == alone_w.data
-        };
-        if !ok {
-            ctx.violation("C09 avp-kind replay".into(), format!("{a:?} at position {base}"), 0, || v.clone());
-        }
+        let k = k % menu.len();
+        far_avp_case(ctx, k, &menu[k], base, v["real"].as_bool().unwrap_or(false));
         return;
     }
     if v["kind"].as_str() == Some("far-position") {
@@ -1262,6 +1561,10 @@ fn replay_c09(ctx: &mut Ctx, v: &Value) {
     }
     let prefix = v["prefix"].as_u64().unwrap_or(0) as u16;
     let items: Vec<u8> = v["items"].as_array().map(|a| a.iter().map(|x| x.as_u64().unwrap_or(0) as u8).collect()).unwrap_or_default();
+    if v["live"].as_bool() == Some(true) {
+        live_enc_history(ctx, prefix as usize, &items, &|| v.clone());
+        return;
+    }
     let alone = match alone_encodings() {
         Ok(a) => a,
         Err(e) => {
